@@ -291,3 +291,8 @@ def run(prog, rep):
     # ---------------------------------------------------------------- R1.7 strings keep their length on the way through the library
     from rules import lengths
     lengths.check(prog, rep, 'R1.7')
+    rep.rule('R1.8', 'a value the stream reader delivers in several chunks is assembled in order: one generic iteration of every ReadByChunks loop - the '
+                     'chunk is appended whole (or copied to a running offset that advances by its size), the byte counter drops by its size, nothing else '
+                     'rewrites the buffer', floor=1)
+    from rules import chunkasm
+    chunkasm.check(prog, rep, 'R1.8')
